@@ -34,7 +34,7 @@ RULE = (
     "message, and no output file for a failing job. array: 1-6 element jobs with distinct hashes, "
     "write_array_job_scratch_files + get_oneshot_command(array_uuid=..), then a generated sequence of "
     "(index, env var kind in AWS_BATCH_JOB_ARRAY_INDEX / JOB_COMPLETION_INDEX / BATCH_TASK_INDEX / "
-    "--array-rank-env) runs; after every run the scratch tree is diffed: only element i's output/error "
+    "--array-rank-env, the latter optionally with a platform variable also set to another index) runs; after every run the scratch tree is diffed: only element i's output/error "
     "file may change, and element i's result/error equals the local call on argument set i. names: "
     "prefixes over [A-Za-z0-9_-] (dashes, 'array' words, empty) and 32/40-hex hashes: "
     "get_hash_from_job_name(get_batch_job_name(p, h, array)) == h; a faked Batch listing (single jobs "
@@ -139,7 +139,10 @@ def array_cases(draw):
         c = draw(calls(which=which))
         elems.append({"args": c["args"], "kwargs": c["kwargs"]})
     hashes = draw(st.lists(st.integers(0, 50), min_size=n, max_size=n, unique=True))
-    runs = draw(st.lists(st.tuples(st.integers(0, n - 1), st.sampled_from(["aws", "aws", "k8s", "gcp", "custom"])),
+    # (index, how the index reaches the element, optional decoy: with an explicit --array-rank-env a
+    # platform variable that is ALSO set, to another index, must be ignored)
+    runs = draw(st.lists(st.tuples(st.integers(0, n - 1), st.sampled_from(["aws", "aws", "k8s", "gcp", "custom", "custom"]),
+                                   st.one_of(st.none(), st.tuples(st.sampled_from(["aws", "k8s", "gcp"]), st.integers(0, n - 1)).map(list))),
                          min_size=1, max_size=n + 1))
     return {"part": "array", "task": which, "elems": elems, "hashes": hashes, "array_id": draw(st.integers(0, 9)),
             "runs": [list(r) for r in runs], "scratch": draw(scratch_names), "trailing_slash": draw(st.booleans())}
@@ -500,7 +503,9 @@ def array_oracle(ctx: Ctx, case: dict) -> None:
             with ctx.no_raise("get_oneshot_command", case):
                 argv = get_oneshot_command(prefix, jobs[0], task, array_uuid=array_id)
             ctx.require("--array-job" in argv, "array:flag-missing", f"argv lacks --array-job: {argv!r}", case)
-            for step, (i, envkind) in enumerate(case["runs"]):
+            for step, run_ in enumerate(case["runs"]):
+                i, envkind = run_[0], run_[1]
+                decoy = run_[2] if len(run_) > 2 and envkind == "custom" and run_[2] and run_[2][1] != i else None
                 expected = _local(task, calls_[i])   # fresh arguments: element i's own argument set
                 run_argv = list(argv)
                 if envkind == "custom":
@@ -508,10 +513,14 @@ def array_oracle(ctx: Ctx, case: dict) -> None:
                     run_argv[k + 1:k + 1] = ["--array-rank-env", ENV_VARS["custom"]]
                 before = _snapshot(root)
                 os.environ[ENV_VARS[envkind]] = str(i)
+                if decoy:
+                    os.environ[ENV_VARS[decoy[0]]] = str(decoy[1])
                 try:
                     ran = _run_oneshot(ctx, run_argv, case)
                 finally:
                     os.environ.pop(ENV_VARS[envkind], None)
+                    if decoy:
+                        os.environ.pop(ENV_VARS[decoy[0]], None)
                 after = _snapshot(root)
                 own = {os.path.normpath(get_job_scratch_file(prefix, jobs[i], SCRATCH_OUTPUT)),
                        os.path.normpath(get_job_scratch_file(prefix, jobs[i], SCRATCH_ERROR))}
@@ -685,10 +694,12 @@ def labels(case: dict):
         return labs, r
     if part == "array":
         n = len(case["elems"])
-        nonzero = any(i != 0 for i, _ in case["runs"])
+        nonzero = any(r_[0] != 0 for r_ in case["runs"])
         r = any(_raises({"task": case["task"], **e}) for e in case["elems"])
         labs = [f"array:n={n}", f"array:task={case['task']}", f"array:index>0={nonzero}", f"array:has-raising={r}"]
-        labs += sorted({f"array:env={e}" for _, e in case["runs"]})
+        labs += sorted({f"array:env={r_[1]}" for r_ in case["runs"]})
+        if any(len(r_) > 2 and r_[1] == "custom" and r_[2] and r_[2][1] != r_[0] for r_ in case["runs"]):
+            labs.append("array:decoy-platform-variable")
         return labs, (n >= 2 and nonzero)
     dashed = "-" in case["exec_prefix"] or any("-" in r[0] for r in case["roundtrip"])
     kinds = sorted({r["type"] for r in case["remote"]})
